@@ -203,7 +203,12 @@ def _read_shapes(peek=False):
                 if k[2] in ('len', 'neglen'):
                     return [o, bitstring.Dtype(k[1], vals['n'])], {}
                 return [o, bitstring.Dtype(k[1])], {}
-            out.append(Shape(f'{cls}/{st}/' + '-'.join(str(x) for x in k), build, real, may_be_empty=(len(k) > 2 and k[2] == 'neglen')))
+            gen = None
+            if k[0] == 'str' and k[1] in ('ue', 'se', 'uie', 'sie'):
+                # the default generator's streams are a dozen bits long: codes of several hundred bits come from here
+                from .golomb import long_code_gen
+                gen = long_code_gen(cls, st, [k[1]])
+            out.append(Shape(f'{cls}/{st}/' + '-'.join(str(x) for x in k), build, real, may_be_empty=(len(k) > 2 and k[2] == 'neglen'), gen=gen))
     return out
 
 
